@@ -615,7 +615,75 @@ def one(rep, c, cfg):
             reg = f.reachable(tt)
             rep.ob("R23.5", f"deliver: a consumed wakeup event is not forwarded to a registered callback {tag}",
                    not (cbs & reg) and bool(reg & set(f.returns())), "", f.loc(b))
+        # the closure hands (waitable, code) = (event1, event2) to deliver_waitable_event, in this order
+        cb, g = closure()
+        caps = [rv for b in sorted(cb.live) for st in cb.stmts(b) if st["k"] == "=" and st["rv"]["k"] == "agg"
+                for rv in [st["rv"]] if rv.get("closure") == g.path]
+
+        def outer_arg(o):
+            """callback's parameter a captured-by-reference upvar of the closure stands for"""
+            pr = o.get("proj", [])
+            if o.get("kind") != "arg" or o.get("n") != 1 or not pr or not re.fullmatch(r"\.\d+", pr[0]) or len(caps) != 1:
+                return None
+            k = int(pr[0][1:])
+            if k >= len(caps[0]["ops"]):
+                return None
+            oo = cb.origin(caps[0]["ops"][k])
+            return oo.get("n") if oo.get("kind") == "arg" else None
+        dl = g.calls("TaskState::deliver_waitable_event")
+        for x in dl:
+            a1, a2 = (g.origin(x.args[1]), g.origin(x.args[2])) if len(x.args) > 2 else ({}, {})
+            if a1.get("kind") == "call":
+                ok = a1["call"].matches(["WaitableSet::poll", "WaitableSet::wait"]) and a2.get("kind") == "call" and \
+                    a2["call"].bb == a1["call"].bb and a1.get("proj") == [".1"] and a2.get("proj") == [".2"]
+                src = "the waitable set's poll result"
+            else:
+                ok = outer_arg(a1) == 3 and outer_arg(a2) == 4
+                src = "callback's event1/event2"
+            rep.ob("R23.5", f"callback: deliver_waitable_event gets (waitable, code) from {src} in order {tag}", ok,
+                   "the wakeup stream's event would not be recognised by its handle", g.loc(x.bb))
     rep.guard("R23.5", f"deliver {tag}", r5a)
+
+    # ------------------------------------------------------------------ R23.8 the poll sees the task's own waker
+    def r8():
+        nw = c.method("TaskState", "new")
+        rep.saw(nw)
+        ags = nw.aggregates("TaskState")
+        rep.floor("R23.8", f"TaskState construction sites in TaskState::new {tag}", len(ags), 1)
+        for b, i, rv, s in ags:
+            fl = rv.get("fields", [])
+            ok = False
+            if "waker" in fl and "shared" in fl:
+                w = nw.origin(rv["ops"][fl.index("waker")])
+                sh = nw.origin(rv["ops"][fl.index("shared")])
+                if w.get("kind") == "call" and w["call"].matches(["Into::into", "From::from"]) and w["call"].args:
+                    a = nw.origin(w["call"].args[0])
+                    if a.get("kind") == "call" and a["call"].matches(["Clone::clone", "Arc::clone"]) and a["call"].args:
+                        src = nw.origin(a["call"].args[0])
+                        ok = src.get("kind") == "call" and sh.get("kind") == "call" and \
+                            src["call"].bb == sh["call"].bb and src["call"].matches("Arc::new")
+            rep.ob("R23.8", f"TaskState::new: the waker is a clone of the task's own SharedTaskState {tag}", ok,
+                   "wakeups through the task's waker would not reach its sleep state", nw.loc(b))
+        cb, f = closure()
+        polls = f.calls("Tasks::poll_next")
+        for x in polls:
+            ok = False
+            if len(x.args) > 1:
+                o = f.origin(x.args[1])
+                if o.get("kind") == "call" and o["call"].matches("Context::from_waker") and o["call"].args:
+                    ok = on_field(f, o["call"].args[0], "waker")
+            rep.ob("R23.8", f"callback: poll_next is given a Context made from the task's waker {tag}", ok, "",
+                   f.loc(x.bb))
+        tk = c.method("Tasks", "poll_next")
+        rep.saw(tk)
+        inner = tk.calls(["StreamExt::poll_next_unpin", "Future::poll", "Stream::poll_next"])
+        rep.floor("R23.8", f"polls of the task's futures in Tasks::poll_next {tag}", len(inner), 1)
+        for x in inner:
+            o = tk.origin(x.args[1]) if len(x.args) > 1 else {}
+            rep.ob("R23.8", f"Tasks::poll_next polls the futures with the Context it was given {tag}",
+                   o.get("kind") == "arg" and o.get("n") == 2, "the futures would register a foreign waker",
+                   tk.loc(x.bb))
+    rep.guard("R23.8", f"own waker {tag}", r8)
 
     if feature:
         feature_rules(rep, c, cfg, tag, syn, closure)
@@ -680,6 +748,37 @@ def feature_rules(rep, c, cfg, tag, syn, closure):
             hc = [y for y in f.calls(HANDLE_R) if y.bb == h]
             rep.ob("R23.2", f"cancel: the handle is the inter-task stream's {tag}",
                    bool(hc) and _via_option_of_field(f, hc[0].args[0], "stream"), "", f.loc(x.bb))
+        # the helpers really are `waitable.join(w, 0)` / `waitable.join(w, set)`
+        h = c.method("WaitableSet", "remove_waitable_from_all_sets")
+        rep.saw(h)
+        js = h.calls("waitable_set::join")
+        ok = len(js) == 1 and every_return_passes(h, [js[0].bb]) and len(js[0].args) == 2
+        if ok:
+            a0, a1 = h.origin(js[0].args[0]), h.origin(js[0].args[1])
+            ok = a0.get("kind") == "arg" and a0.get("n") == 1 and not a0.get("proj") and \
+                a1.get("kind") == "const" and a1.get("v") == 0
+        rep.ob("R23.2", f"remove_waitable_from_all_sets is waitable.join(waitable, 0) on every path {tag}", ok, "",
+               h.loc())
+        j = c.method("WaitableSet", "join")
+        rep.saw(j)
+        js = j.calls("waitable_set::join")
+        ok = len(js) == 1 and every_return_passes(j, [js[0].bb]) and len(js[0].args) == 2
+        if ok:
+            a0 = j.origin(js[0].args[0])
+            a1 = j.origin(js[0].args[1])
+            ok = a0.get("kind") == "arg" and a0.get("n") == 2 and not a0.get("proj") and \
+                not (a1.get("kind") == "const")
+        rep.ob("R23.3", f"WaitableSet::join is waitable.join(waitable, this set) on every path {tag}", ok, "", j.loc())
+        aw = c.method("SharedTaskState", "add_waitable")
+        rep.saw(aw)
+        js = aw.calls("WaitableSet::join")
+        ok = len(js) == 1 and every_return_passes(aw, [js[0].bb]) and len(js[0].args) == 2
+        if ok:
+            a1 = aw.origin(js[0].args[1])
+            ok = a1.get("kind") == "arg" and a1.get("n") == 2 and not a1.get("proj")
+            lk = [y for y in aw.calls("TryLock::try_lock") if _from_field(aw, y.args[0], "waitable_set")]
+            ok = ok and bool(lk)
+        rep.ob("R23.3", f"add_waitable joins the given waitable to the task's own waitable_set {tag}", ok, "", aw.loc())
     rep.guard("R23.2", f"cancel {tag}", r2)
 
     # ------------------------------------------------------------------ R23.3 read_inter_task_stream
@@ -755,6 +854,20 @@ def feature_rules(rep, c, cfg, tag, syn, closure):
                             wr.append(b)
             rep.ob("R23.3", f"read: the new writer is published to the waker state on every path {tag}",
                    bool(wr) and f.all_paths_pass(n.bb, rets, wr), "", f.loc(n.bb))
+            def payload_from_new(stmts, field):
+                for st_ in stmts:
+                    o = f.stored(st_)
+                    if o.get("kind") == "agg" and o["rv"].get("ops"):
+                        t = trace(f, o["rv"]["ops"][0])
+                        if is_call(t, n) and t.get("proj") == [field]:
+                            return True
+                return False
+            rd_st = [s for sb, _, s in f.field_stores("stream") if f.stores_variant(s, "Some")]
+            wr_st = [s for b in sorted(f.live) for s in f.stmts(b)
+                     if s["k"] == "=" and s["p"].get("p") == ["*"] and f.stores_variant(s, "Some")]
+            rep.ob("R23.3", f"read: reader kept and writer published are the two ends of the same new stream {tag}",
+                   len(news) == 1 and payload_from_new(rd_st, ".1") and payload_from_new(wr_st, ".0"),
+                   "the waker would write to a stream the task does not read", f.loc(n.bb))
             rep.ob("R23.3", f"read: the waker state's lock is the inter_task_stream lock {tag}",
                    any(_from_field(f, y.args[0], "inter_task_stream") for y in f.calls("TryLock::try_lock")), "",
                    f.loc(n.bb))
